@@ -1314,10 +1314,11 @@ private:
         ::boost::msm::back::execute_return (library_sm::*pf) (EventType&, ::boost::msm::back::EventSource) =
             &library_sm::process_event_internal;
 
+        // the event is sent to this machine, like a process_event call on it
         m_events_queue.m_events_queue.push_back(
             ::boost::bind(
                 pf, this, evt,
-                static_cast<::boost::msm::back::EventSource>(::boost::msm::back::EVENT_SOURCE_MSG_QUEUE)));
+                static_cast<::boost::msm::back::EventSource>(::boost::msm::back::EVENT_SOURCE_DIRECT | ::boost::msm::back::EVENT_SOURCE_MSG_QUEUE)));
     }
     template <class EventType>
     void enqueue_event_helper(EventType const& , ::boost::mpl::true_ const &)
